@@ -67,7 +67,7 @@ ASSUMPTIONS = [
     "'no EAPI given' = atom()'s default eapi argument; '::repo' legal only there",
     "non-MalformedAtom exceptions on invalid strings are outside the statement (counted, not violations)",
 ]
-BUDGET = {"quick": 50, "thorough": 900}
+BUDGET = {"quick": 40, "thorough": 780}
 
 EAPIS = R.EAPIS
 SEEDS = st.integers(0, 2**64 - 1)  # one draw seeds a private random.Random building BATCH cases (see vf/gen/atoms.py)
